@@ -17,6 +17,8 @@ RULE = (
     'the history contains a non-success reply while some dependent has the '
     'target pending, or starts from an empty target list, or has an analysis '
     'below a task with work requested. Distinct = SHA-1 of case JSON.'
+    ' Part faults also lets db.targets() fail once while the farm handles a'
+    ' reply; algorithms may read back their own output. '
 )
 ASSUMPTIONS = [
     'liveness is bounded: workers always answer; drain bound '
